@@ -11,6 +11,7 @@ package sqlc_test
 
 import (
 	"fmt"
+	"math"
 	"sort"
 	"sync"
 	"syscall"
@@ -50,12 +51,18 @@ type rcCase struct {
 	Salt    int        `json:"salt"`
 	OffMs   int        `json:"off"`
 	Exists  []bool     `json:"ex"` // which of the rows 0..3 exist
+	PKs     []int64    `json:"pk"` // primary key VALUE of each row (distinct)
 	Lat     int        `json:"la"` // virtual duration of a database callback, ms
 	Readers []rcReader `json:"r"`
 }
 
 type rcRow struct {
-	ID, Idx, Val int
+	ID  int64 // primary key value
+	Idx int
+	Val int
+	Big int64
+	F   float64
+	S   string
 }
 
 func rcRealNow() int64 {
@@ -65,8 +72,27 @@ func rcRealNow() int64 {
 }
 
 func rcInterp(t *testing.T, c rcCase) (v kit.Verdict) {
-	if len(c.Exists) != 4 || len(c.Readers) == 0 {
+	if len(c.Exists) != 4 || len(c.PKs) != 4 || len(c.Readers) == 0 {
 		return kit.Verdict{Excluded: true}
+	}
+	for i := range c.PKs {
+		for j := 0; j < i; j++ {
+			if c.PKs[i] == c.PKs[j] {
+				return kit.Verdict{Excluded: true}
+			}
+		}
+	}
+	rowOf := func(id int) rcRow {
+		return rcRow{ID: c.PKs[id], Idx: id, Val: id + 100, Big: c.PKs[id] ^ 0x5555, F: float64(id) + 0.1, S: "r\"\\\n✓" + fmt.Sprint(id)}
+	}
+	slotOf := func(p any) int {
+		txt := fmt.Sprint(p)
+		for id, pk := range c.PKs {
+			if fmt.Sprint(pk) == txt {
+				return id
+			}
+		}
+		return -1
 	}
 	rcSrv.FlushAll()
 	var fail string
@@ -80,7 +106,12 @@ func rcInterp(t *testing.T, c rcCase) (v kit.Verdict) {
 	res := kit.Bubble(t, func() {
 		time.Sleep(time.Duration(c.OffMs) * time.Millisecond) // varies the seed of the TTL jitter
 		cc := sqlc.NewNodeConn(nil, redis.New(rcSrv.Addr()), cache.WithExpire(time.Minute), cache.WithNotFoundExpire(10*time.Second))
-		pkey := func(id int) string { return fmt.Sprintf("p%d:%d", c.Salt, id) }
+		pkey := func(id int) string {
+			if id < 0 {
+				return "unknown primary key"
+			}
+			return fmt.Sprintf("p%d:%d", c.Salt, c.PKs[id])
+		}
 		ikey := func(id int) string { return fmt.Sprintf("i%d:%d", c.Salt, id) }
 		var mu sync.Mutex
 		active, maxActive, calls := map[string]int{}, map[string]int{}, map[string]int{}
@@ -100,27 +131,22 @@ func rcInterp(t *testing.T, c rcCase) (v kit.Verdict) {
 			if id < 0 || id >= 4 || !c.Exists[id] {
 				return sqlc.ErrNotFound
 			}
-			*v.(*rcRow) = rcRow{ID: id, Idx: id, Val: id + 100}
+			*v.(*rcRow) = rowOf(id)
 			return nil
-		}
-		toInt := func(p any) int {
-			var n int
-			fmt.Sscan(fmt.Sprint(p), &n)
-			return n
 		}
 		read := func(r rcReader) (rcRow, error) {
 			var row rcRow
 			if !r.ViaIdx {
 				return row, cc.QueryRow(&row, pkey(r.ID), func(_ sqlx.Conn, v any) error { return db(pkey(r.ID), r.ID, v) })
 			}
-			err := cc.QueryRowIndex(&row, ikey(r.ID), func(p any) string { return pkey(toInt(p)) },
+			err := cc.QueryRowIndex(&row, ikey(r.ID), func(p any) string { return fmt.Sprintf("p%d:%v", c.Salt, p) },
 				func(_ sqlx.Conn, v any) (any, error) {
 					if err := db(ikey(r.ID), r.ID, v); err != nil {
 						return nil, err
 					}
-					return r.ID, nil
+					return c.PKs[r.ID], nil
 				},
-				func(_ sqlx.Conn, v, p any) error { return db(pkey(toInt(p)), toInt(p), v) })
+				func(_ sqlx.Conn, v, p any) error { return db(pkey(slotOf(p)), slotOf(p), v) })
 			return row, err
 		}
 		for wave := 0; wave < 2; wave++ {
@@ -148,7 +174,7 @@ func rcInterp(t *testing.T, c rcCase) (v kit.Verdict) {
 				switch {
 				case o.err != nil && o.err != sqlc.ErrNotFound:
 					failf("wave %d reader %d %+v: unexpected error %v", wave, i, r, o.err)
-				case c.Exists[r.ID] && (o.err != nil || o.row != rcRow{ID: r.ID, Idx: r.ID, Val: r.ID + 100}):
+				case c.Exists[r.ID] && (o.err != nil || o.row != rowOf(r.ID)):
 					failf("wave %d reader %d %+v: got (%+v, %v), the database holds row %d", wave, i, r, o.row, o.err, r.ID)
 				case !c.Exists[r.ID] && o.err != sqlc.ErrNotFound:
 					failf("wave %d reader %d %+v: got (%+v, %v), the database holds no row %d", wave, i, r, o.row, o.err, r.ID)
@@ -222,6 +248,9 @@ func rcGen(rt *rapid.T) rcCase {
 	for i := 0; i < 4; i++ {
 		c.Exists = append(c.Exists, rapid.IntRange(0, 3).Draw(rt, "exists") != 0)
 	}
+	pool := []int64{0, 1, 2, -1, 1234567, 2097153, 4294967297, 1<<53 - 1, 1 << 53, 1<<53 + 1, -(1 << 53) - 1,
+		1234567890123456789, 1234567890123456768, math.MaxInt64, math.MinInt64}
+	c.PKs = rapid.SliceOfNDistinct(rapid.OneOf(rapid.SampledFrom(pool), rapid.Int64()), 4, 4, rapid.ID[int64]).Draw(rt, "pk")
 	n := rapid.IntRange(2, 12).Draw(rt, "readers")
 	nkeys := rapid.IntRange(1, 3).Draw(rt, "keys")
 	for i := 0; i < n; i++ {
